@@ -162,7 +162,9 @@ def run_spec(spec, points, tier, visit, quick_slice=0, honesty=False, want_steps
                         for fname_, xa in forms:
                             pi = cm.PointInfo()
                             pi.x = xa
-                            res = cm.run_config(fun, cfg, gen, pi, None)
+                            # the Fortran-ordered call also hands over n and order as numpy integers (`for n in np.arange(..)`)
+                            cfg_call = (method, np.int64(n), np.int32(order)) if fname_ == 'arrayF' else cfg
+                            res = cm.run_config(fun, cfg_call, gen, pi, None)
                             ncalls += 1
                             for i, comb in enumerate(combs[:xa.size]):
                                 t = terms(cfg, gen, comb)
